@@ -15,6 +15,10 @@ def norm(x):
         return ["<dict>"] + [[norm(k), norm(v)] for k, v in x.items()]
     if isinstance(x, (set, frozenset)):
         return ["<set>"] + sorted((norm(y) for y in x), key=repr)
+    if isinstance(x, (str, int, float, bool, bytes)) or x is None or isinstance(x, type) or callable(x):
+        return x
+    if hasattr(x, "__dict__") and type(x).__eq__ is object.__eq__:
+        return ["<obj %s>" % type(x).__name__, norm(vars(x))]
     return x
 
 
